@@ -20,7 +20,7 @@
        no file-system component: C17_deser_function_of_proto); on the implementation it is observed with
        audit hooks on every run (not a theorem). *)
 From Coq Require Import NArith List Bool Arith.
-From IRV Require Import Base.Exn C03.Model C03.Canon C03.Inv C03.Tree C03.TreeF C03.PayFixDefs C03.IsoThmF C17.Top C17.Tree2 C17.Fix2Thm C17.Fix2Defs C17.Fix2Final.
+From IRV Require Import Base.Exn C03.Model C03.Canon C03.Inv C03.Tree C03.TreeF C03.PayFixDefs C03.IsoThmF C17.Top C17.Tree2 C17.Fix2Thm C17.Fix2Defs C17.Fix2Final C03.ModelOld C17.OldFormat.
 Import ListNotations.
 Open Scope N_scope.
 
@@ -83,6 +83,24 @@ Theorem C17_ser_fixpoint :
     exists h' m' h'', deser_model q = Ok (h', m') /\ ser_model np h' m' = Ok (h'', q).
 Proof. exact ser_fixpoint. Qed.
 Print Assumptions C17_ser_fixpoint.
+
+(* ---- the IR-version < 10 "experimental" function value-info format (C03/ModelOld.v: the type/shape of a function's
+   values travel in the main graph's value_info under "{domain}::{function}/{value}" and are applied by a post-pass).
+   deser_model_x old X = deser_model_old X when old, deser_model otherwise. *)
+(* Consistency holds in both formats, for every proto and every parse table X. *)
+Theorem C17_consistent_x : forall old X p h m, deser_model_x old X p = Ok (h, m) -> Inv h.
+Proof. exact deser_model_x_inv. Qed.
+Print Assumptions C17_consistent_x.
+
+(* In the old format the re-serialization fixpoint is REFUTED by the faithful model (as by the code: known finding
+   experimental-function-value-info-name-collision, replayed on every run): a main-graph initializer named
+   "D::F/a" next to a function D::F with input a.  C17_ser_fixpoint above is the IR >= 10 statement. *)
+Theorem C17_ser_fixpoint_old_refuted :
+  exists X Y p h m h1 q,
+    deser_model_old X p = Ok (h, m) /\ ser_model_old [] Y h m = Ok (h1, q) /\
+    exists h' m' h'' q', deser_model_old X q = Ok (h', m') /\ ser_model_old [] Y h' m' = Ok (h'', q') /\ q' <> q.
+Proof. exists old_X, old_Y, old_witness. exact ser_fixpoint_old_refuted. Qed.
+Print Assumptions C17_ser_fixpoint_old_refuted.
 
 (* ---- non-vacuity: a malformed proto that IS accepted.  Names: 1 = "a", 2 = "b", 3 = "x", 4 = "zz".
    graph inputs [a; a] (duplicated), initializer for the input a, nodes in cyclic/unsorted order
